@@ -29,6 +29,7 @@ import (
 	"strings"
 
 	"github.com/ecodeclub/ekit"
+	"github.com/ecodeclub/ekit/internal/errs"
 	"github.com/ecodeclub/ekit/zzverif/vlib"
 )
 
@@ -294,6 +295,56 @@ func mkHeld(tok string) any {
 }
 
 // ---- results ----
+
+// curHeld is the value held by the AnyValue under test (set by doRun before every call): the
+// conversion errors of value.go are made by errs.NewErrInvalidType(want, held), so they are recognised
+// by re-building them with that constructor — not by the wording of their message.
+var curHeld any
+
+const wantMark = "\u2039verif-want-mark\u203a"
+
+func isInvalidType(msg string, held any) (yes bool) {
+	if p := vlib.Catch(func() {
+		// where the constructor puts `want`: build it with a marker and cut there
+		tpl := errs.NewErrInvalidType(wantMark, held).Error()
+		i := strings.Index(tpl, wantMark)
+		if i < 0 {
+			return
+		}
+		pre, suf := tpl[:i], tpl[i+len(wantMark):]
+		if len(msg) < len(pre)+len(suf) || !strings.HasPrefix(msg, pre) || !strings.HasSuffix(msg, suf) {
+			return
+		}
+		want := msg[len(pre) : len(msg)-len(suf)]
+		yes = errs.NewErrInvalidType(want, held).Error() == msg
+	}); p != "" {
+		return false
+	}
+	return yes
+}
+
+// AsString builds its "unsupported kind" error in place; the reference is the error the library
+// itself returns for a held struct{}{}.
+var unsupportedRef struct {
+	done, ok bool
+	msg      string
+}
+
+func isUnsupported(msg string) bool {
+	if !unsupportedRef.done {
+		unsupportedRef.done = true
+		vlib.Catch(func() {
+			if _, e := (ekit.AnyValue{Val: struct{}{}}).AsString(); e != nil {
+				unsupportedRef.msg, unsupportedRef.ok = e.Error(), true
+			}
+		})
+		if unsupportedRef.ok && isInvalidType(unsupportedRef.msg, struct{}{}) {
+			unsupportedRef.ok = false // not a distinct error (any more)
+		}
+	}
+	return unsupportedRef.ok && msg == unsupportedRef.msg
+}
+
 func ek(err error) string {
 	switch {
 	case err == stored:
@@ -304,7 +355,7 @@ func ek(err error) string {
 		return "err:syntax"
 	}
 	msg := err.Error()
-	if strings.Contains(msg, "类型转换失败") || strings.Contains(msg, "未兼容类型") {
+	if isInvalidType(msg, curHeld) || isUnsupported(msg) {
 		return "err:type"
 	}
 	var e1 *json.SyntaxError
@@ -948,6 +999,7 @@ func doRun(ops []string, out *vlib.Out, st *stats) {
 				continue
 			}
 			have = true
+			curHeld = av.Val
 			cur = strings.Join(w[1:], " ")
 			k, pl := splitColon(w[1])
 			st.Held[k]++
